@@ -154,6 +154,17 @@ META.update({
             "note": "bounds: see evidence.bounds (array/text length). " + TRUST},
 })
 
+SLEVEL = ("bounded model checking of the real GSAP/OSAP code over bounded call histories (Write, Parse with symbolic flags, Shrink, Reset, Parse(nil)) on symbolic streams: "
+          "all byte strings of the free length (one path per order type) and all strings over an arbitrary two-letter alphabet of the longer length; suffix.Sort is replaced by a "
+          "reference sort (assume/guarantee, discharged by C09), everything downstream is the real code. ")
+META.update({
+    "C11": {"level": SLEVEL + "On every path the cost of the emitted block is compared with the optimum of an independent dynamic program over the bytes.", "note": PNOTE},
+    "C12": {"level": SLEVEL + "On every path every emitted match is compared with the longest common prefix against every earlier buffered position, and every literal with the MinMatchLen bound.", "note": PNOTE},
+    "C13": {"level": "bounded model checking: a hash parser in an ARBITRARY used state (unconstrained tables and buffer) is Reset (three ways) and then driven in lockstep with a new parser of the same "
+                     "configuration on symbolic data, all (n, err, block) compared; GSAP/OSAP with real prior histories under the reference-sort assumption; independence of instances by the "
+                     "engine-level check that no package-level object is written on any explored path", "note": PNOTE},
+})
+
 NOT_APPLICABLE = {}
 
 
@@ -212,7 +223,7 @@ PARSE_ASSUME = ["pre-state: 0<=W<=len(Data)<=BufferSize, cap(Data)>=len(Data)+7 
                 "hash multiplication x*prime abstracted as an uninterpreted function during path exploration (sound: more behaviours); every counterexample is re-decided "
                 "with the real 64-bit bvmul before it is reported (CEGAR), and replayed natively",
                 "append growth as measured on go1.23.5", "64-bit int"]
-PARSE_OUTSIDE = ["buffers longer than the bound (8-byte extension loops are reached by the kernel harnesses of C19 only)", "GSAP and OSAP (separate assume/guarantee harnesses)",
+PARSE_OUTSIDE = ["buffers longer than the bound (8-byte extension loops are reached by the kernel harnesses of C19 only)", "GSAP/OSAP streams longer than the bound; GSAP/OSAP with the real suffix.Sort (C09)",
                  "hash tables larger than 4 entries (content is arbitrary, so size only changes which slot is read)", "32-bit platforms"]
 PARSE_REACH = {"zzH_parse" + k: ["end", "match"] for k in ("HP", "BHP", "DHP", "BDHP", "BUP")}
 
@@ -220,15 +231,24 @@ PARSE_REACH = {"zzH_parse" + k: ["end", "match"] for k in ("HP", "BHP", "DHP", "
 def parse_spec(tier, expl, nil=False):
     jobs, bounds = parse_jobs(tier)
     reach = dict(PARSE_REACH)
+    j3, b3 = sap_jobs(tier, lite=True)
+    jobs += j3
+    bounds["GSAP/OSAP (bounded histories)"] = b3
+    reach.update(SAP_REACH)
     if nil:
         j2, _ = parse_jobs(tier, prefix="parseNil", dl=1)
         jobs += j2
         reach.update({"zzH_parseNil" + k: ["end", "match-after-skip"] for k in ("HP", "BHP", "DHP", "BDHP", "BUP")})
-    return {"jobs": jobs, "bounds": bounds, "assumptions": PARSE_ASSUME, "outside": PARSE_OUTSIDE, "explanation": expl, "reach": reach}
+    return {"jobs": jobs, "bounds": bounds, "assumptions": PARSE_ASSUME + SAP_ASSUME, "outside": PARSE_OUTSIDE, "explanation": expl, "reach": reach}
 
 
 def spec_C01(tier):
-    return parse_spec(tier, "round trip: the reference LZ77 expander, seeded with Data[:W], applied to the block Parse returns must give exactly Data[W:W+n]")
+    s = parse_spec(tier, "round trip: the reference LZ77 expander, seeded with Data[:W], applied to the block Parse returns must give exactly Data[W:W+n]; "
+                   "kernels lcp/getLE64 (used to verify candidates at lengths the parser harnesses do not reach) against references")
+    j, b = kernel_jobs(tier, ["lcp", "getLE64"])
+    s["jobs"] += j
+    s["bounds"].update(b)
+    return s
 
 
 def spec_C02(tier):
@@ -244,15 +264,15 @@ def spec_C03(tier):
 
 def spec_C14(tier):
     jobs, bounds = parse_jobs(tier, prefix="parseNil")
-    return {"jobs": jobs, "bounds": bounds, "assumptions": PARSE_ASSUME, "outside": PARSE_OUTSIDE + ["GSAP/OSAP Parse(nil): separate harness"],
+    j3, b3 = sap_jobs(tier, scripts=(5, 6))
+    jobs += j3
+    bounds["GSAP/OSAP (bounded histories)"] = b3
+    return {"jobs": jobs, "bounds": bounds, "assumptions": PARSE_ASSUME + SAP_ASSUME, "outside": PARSE_OUTSIDE,
             "explanation": "Parse(nil, flags) from an arbitrary state: n == min(BlockSize, unparsed), W' = W+n, ErrEmptyBuffer iff n == 0; then a regular Parse whose block "
                            "must be correct for a decoder holding the skipped bytes verbatim (reference expander seeded with Data[:W'])",
-            "reach": {"zzH_parseNil" + k: ["end", "match-after-skip"] for k in ("HP", "BHP", "DHP", "BDHP", "BUP")}}
+            "reach": dict({"zzH_parseNil" + k: ["end", "match-after-skip"] for k in ("HP", "BHP", "DHP", "BDHP", "BUP")},
+                          zzH_gsapScript=["end", "skipped"], zzH_osapScript=["end", "skipped"])}
 
-
-def spec_C19(tier):
-    return parse_spec(tier, "maximality: every emitted match ends at the block end or the next byte differs from the byte Offset back; BHP/BDHP: a literal directly in front "
-                      "of a match never equals the byte Offset before it while that byte is buffered")
 
 
 # ---------------------------------------------------------------- ParserBuffer (C15)
@@ -394,3 +414,195 @@ def spec_C10(tier):
             "explanation": "Segments is executed on symbolic lcp values; the callback log is compared with the interval structure: range of m, members share m bytes "
                            "(all lcp inside >= m), every pair with common prefix c >= minLen in exactly one callback with m = min(c, maxLen), nested groups first, no panic (n = 0 included)",
             "reach": {"zzH_segArray": ["end", "nested"], "zzH_segText": ["end", "nested"]}}
+
+
+# ---------------------------------------------------------------- GSAP / OSAP (assume/guarantee bounded histories)
+
+SAP_STUBS = {"github.com/ulikunitz/lz/suffix.Sort": "zzRefSuffixSort"}
+
+
+def sap_cfgs(tier, kind):
+    """(tag, params) geometry / limits of the suffix-array parser jobs"""
+    cfgs = [("big", dict(B=8, S=4, Wn=8, bs=8, mm=2)),
+            ("blk2", dict(B=8, S=4, Wn=8, bs=2, mm=2)),
+            ("win2", dict(B=8, S=2, Wn=2, bs=3, mm=2)),
+            ("mm3", dict(B=8, S=3, Wn=8, bs=4, mm=3)),
+            ("tight", dict(B=5, S=1, Wn=4, bs=2, mm=2))]
+    if kind == "osap":
+        cfgs += [("max2", dict(B=8, S=4, Wn=8, bs=8, mm=2, MM=2)), ("win1", dict(B=8, S=2, Wn=1, bs=4, mm=2, MM=3))]
+    if tier != "quick":
+        cfgs += [("blk1", dict(B=8, S=0, Wn=3, bs=1, mm=2)), ("mm4", dict(B=8, S=4, Wn=8, bs=8, mm=4))]
+    return cfgs
+
+
+def sap_jobs(tier, kinds=("gsap", "osap"), scripts=(0, 1, 2, 3, 4), N=None, lite=False):
+    """lite: the subset of configurations used by the properties that share these runs with C11/C12 (quick tier only)"""
+    lite = lite and tier == "quick"
+    if N is None:
+        N = 5 if tier == "quick" else 6
+    NB = 8 if tier == "quick" else 10
+    jobs = []
+    for kind in kinds:
+        for tag, cp in sap_cfgs(tier, kind):
+            if lite and tag not in ("blk2", "win2", "tight", "win1"):
+                continue
+            for sc in scripts:
+                ks = [0] if sc in (0, 5) else ([3] if tier == "quick" else [2, 3, 4])
+                for k in ks:
+                    if cp["B"] < N and sc in (0, 1, 5, 6):
+                        continue  # the script needs the whole stream in the buffer
+                    jobs.append(J("%s-%s-s%d-k%d" % (kind, tag, sc, k), "zzH_%sScript" % kind, params=dict(cp, N=N, k=k, script=sc), stubs=SAP_STUBS))
+        # second input family: streams over an arbitrary two-letter alphabet (2^N paths), which reaches longer streams
+        for tag, cp in sap_bin_cfgs(tier, kind, NB):
+            if lite and tag not in ("blk3", "win3"):
+                continue
+            for sc in scripts:
+                ks = [0] if sc in (0, 5) else ([NB // 2] if tier == "quick" else [NB // 2 - 1, NB // 2 + 1])
+                for k in ks:
+                    if cp["B"] < NB and sc in (0, 1, 5, 6):
+                        continue
+                    jobs.append(J("%s-bin-%s-s%d-k%d" % (kind, tag, sc, k), "zzH_%sScript" % kind, params=dict(cp, N=NB, k=k, script=sc, alpha=2), stubs=SAP_STUBS))
+    bounds = {"stream (free bytes)": "%d arbitrary bytes (one path per order type of the bytes: which are equal, how the distinct ones are ordered)" % N,
+              "stream (two letters)": "%d bytes over an arbitrary two-letter alphabet c0 < c1 (all 2^%d patterns, all byte values for the letters)" % (NB, NB),
+              "scripts": "0: Write Parse*; 1: Write Parse* Write Parse*; 2: Write Parse* Shrink Write Parse*; 3: Write Parse Reset(data) Parse*; 4: Write Parse* Reset(nil) Write Parse*; "
+                         "5: Write Parse(nil) Parse*; 6: Write Parse Parse(nil) Parse* Write Parse*; flags (0 / NoTrailingLiterals) symbolic per Parse call",
+              "configurations (free bytes)": {"%s/%s" % (k, t): p for k in kinds for t, p in sap_cfgs(tier, k)},
+              "configurations (two letters)": {"%s/%s" % (k, t): p for k in kinds for t, p in sap_bin_cfgs(tier, k, NB)}}
+    return jobs, bounds
+
+
+def sap_bin_cfgs(tier, kind, NB):
+    cfgs = [("big", dict(B=NB + 2, S=4, Wn=NB + 2, bs=NB + 2, mm=2)),
+            ("blk3", dict(B=NB + 2, S=3, Wn=NB + 2, bs=3, mm=2)),
+            ("win3", dict(B=NB + 2, S=2, Wn=3, bs=4, mm=2)),
+            ("tight", dict(B=NB - 2, S=2, Wn=NB, bs=4, mm=3))]
+    if tier != "quick":
+        cfgs += [("mm4", dict(B=NB + 2, S=4, Wn=NB + 2, bs=6, mm=4))]
+    return cfgs
+
+
+SAP_ASSUME = ["assume/guarantee: suffix.Sort is replaced by a reference insertion sort with naive suffix comparison (forks on byte comparisons, so the suffix array is concrete per path); "
+              "that suffix.Sort returns the same array is C09's claim", "parsers are constructed by ParserBuffer.Init + direct assignment of the verified configuration (NewParser's "
+              "reflection path is C16/C20's subject)", "64-bit int, go1.23.5 append growth"]
+SAP_REACH = {"zzH_gsapScript": ["end", "match"], "zzH_osapScript": ["end", "match"]}
+
+
+def spec_C11(tier):
+    jobs, bounds = sap_jobs(tier, kinds=("osap",))
+    j, b = kernel_jobs(tier, ["xzcost"])
+    jobs += j
+    bounds.update(b)
+    return {"jobs": jobs, "bounds": bounds, "assumptions": SAP_ASSUME + ["cost model as configured: XZCost per match, 9 bits per literal"],
+            "outside": ["streams longer than the bound", "MaxMatchLen between 4 and 272 (only 2, 3 and 273 are configured)"],
+            "explanation": "end to end: real suffix.LCP, suffix.Segments, edge closure and dynamic program; on every path (order type) the cost of the emitted block with flags 0 is "
+                           "compared with the optimum of an independent O(n*window) dynamic program over the bytes (matches allowed iff the bytes agree, MinMatchLen..MaxMatchLen, "
+                           "offset <= WindowSize, source inside the buffer); blocks after Shrink, Reset and blocks reusing edges included", "reach": {"zzH_osapScript": ["end", "match"]}}
+
+
+def spec_C12(tier):
+    jobs, bounds = sap_jobs(tier, kinds=("gsap",))
+    j, b = kernel_jobs(tier, ["lcp"])
+    jobs += j
+    bounds.update(b)
+    return {"jobs": jobs, "bounds": bounds, "assumptions": SAP_ASSUME,
+            "outside": ["streams longer than the bound (suffix ranks stay inside one bitset word; multi-word bitsets: see the bitset kernel job)", "histories with Parse(nil)"],
+            "explanation": "for every emitted match at position q and every earlier buffered position f the common prefix clipped at the block end is <= MatchLen; when BufferSize <= WindowSize "
+                           "every literal position has no earlier position offering MinMatchLen; histories with second fill, Shrink, Reset so that the suffix array is rebuilt",
+            "reach": {"zzH_gsapScript": ["end", "match"]}}
+
+
+# ---------------------------------------------------------------- Reset vs new parser (C13)
+
+def spec_C13(tier):
+    N = 5 if tier == "quick" else 7
+    jobs = []
+    kinds = [("HP", {"inputLen": 2, "hashBits": 1}), ("HP", {"inputLen": 3, "hashBits": 2}), ("BHP", {"inputLen": 2, "hashBits": 1}),
+             ("DHP", {"inputLen": 2, "inputLen2": 3, "hashBits": 1}), ("BDHP", {"inputLen": 2, "inputLen2": 3, "hashBits": 1}),
+             ("BUP", {"inputLen": 2, "hashBits": 1, "bucketSize": 2})]
+    if tier != "quick":
+        kinds += [("DHP", {"inputLen": 3, "inputLen2": 4, "hashBits": 2}), ("BDHP", {"inputLen": 3, "inputLen2": 5, "hashBits": 1}), ("BUP", {"inputLen": 3, "hashBits": 0, "bucketSize": 3})]
+    for kind, kp in kinds:
+        tag = "-".join("%s%d" % (k[0] + k[-1], v) for k, v in kp.items())
+        for mode in (0, 1, 2):
+            for ld, w in ((0, 0), (3, 1)) if tier == "quick" else ((0, 0), (3, 1), (3, 3)):
+                for bs in (2, N):
+                    for PB in ((N + 3,) if mode != 2 and tier == "quick" else (N, N + 3)):
+                        jobs.append(J("reset%s-%s-m%d-ld%d-w%d-bs%d-B%d" % (kind, tag, mode, ld, w, bs, PB), "zzH_reset" + kind,
+                                      params=dict(kp, L=3, N=N, ld=ld, w=w, nn=N, mode=mode, bs=bs - 1, PB=PB), uf_mul=True))
+    NS = 5 if tier == "quick" else 6
+    for kind in ("GSAP", "OSAP"):
+        for tag, cp in sap_cfgs(tier, kind.lower())[:4]:
+            for pre in (0, 1, 2):
+                for mode in (0, 1):
+                    jobs.append(J("reset%s-%s-pre%d-m%d" % (kind, tag, pre, mode), "zzH_reset" + kind, params=dict(cp, N=NS, k=2, pre=pre, mode=mode), stubs=SAP_STUBS))
+        # two-letter streams: longer prior history and longer data after the Reset
+        NB = 8 if tier == "quick" else 10
+        for tag, cp in sap_bin_cfgs(tier, kind.lower(), NB)[:2]:
+            for pre in (0, 2):
+                jobs.append(J("reset%s-bin-%s-pre%d" % (kind, tag, pre), "zzH_reset" + kind, params=dict(cp, N=NB, k=NB // 2, pre=pre, mode=0, alpha=2), stubs=SAP_STUBS))
+    return {"jobs": jobs,
+            "bounds": {"hash parsers": "used parser = ARBITRARY state (0 or 3 buffered bytes with arbitrary margin, every table entry an arbitrary uint32 pair: whatever it processed before); "
+                                       "then Reset(data with margin) / Reset(data without margin, copied) / Reset(nil)+Write with %d arbitrary bytes; then lockstep Parse to ErrEmptyBuffer "
+                                       "with symbolic flags against a new parser; BlockSize 2 and %d, BufferSize %d and %d" % (N, N, N, N + 3),
+                       "GSAP/OSAP": "real prior history on %d arbitrary bytes split 2/%d (and on 8 bytes over a two-letter alphabet split 4/4): Write Parse* [Shrink] or Write Parse(one block), then Reset(data) or Reset(nil)+Write, lockstep against a new parser" % (NS, NS - 2),
+                       "configurations": [k + " " + str(p) for k, p in kinds]},
+            "assumptions": PARSE_ASSUME + SAP_ASSUME + ["'other instances used concurrently': the module has no goroutines, locks or channels; the engine checks on every explored path of every harness "
+                           "that no object allocated by package initialisation (package-level variables, error values) is written, so instances can only share what the caller passes to both; "
+                           "goroutine schedules themselves are not explored (outside this technique)"],
+            "outside": ["data longer than the bound after Reset (a stale entry must survive in a slot the new data does not overwrite: with arbitrary pre-tables every slot is stale, so short data suffices)",
+                        "GSAP bitset regrowth across Reset needs suffix ranks >= 64 (buffers >= 65 bytes): see the bitset kernel job", "goroutine schedules"],
+            "explanation": "Reset equivalence by lockstep comparison of (n, err, Sequences, Literals) for every call after the Reset",
+            "reach": {"zzH_reset" + k: ["end", "match"] for k in ("HP", "BHP", "DHP", "BDHP", "BUP", "GSAP", "OSAP")}}
+
+
+# ---------------------------------------------------------------- kernels and the run clause of C19
+
+def kernel_jobs(tier, names):
+    n = 9 if tier == "quick" else 13
+    jobs = []
+    for nm in names:
+        if nm in ("lcp", "lcs"):
+            for la in range(n + 1):
+                jobs.append(J("%s-n%d-la%d" % (nm, n, la), "zzH_" + nm, params={"n": n, "la": la}))
+        elif nm == "matchLen":
+            for la in range(n + 1):
+                jobs.append(J("%s-n%d-la%d" % (nm, n, la), "zzH_" + nm, pkg="suffix", params={"n": n, "la": la}))
+        else:
+            jobs.append(J(nm, "zzH_" + nm))
+    return jobs, {"kernels": "%s against three-line references for all byte values and every pair of slice lengths 0..%d" % (", ".join(names), n)}
+
+
+def run_jobs(tier):
+    lays = [dict(pre=1, lead=0, n=32, tail=1, post=1), dict(pre=3, lead=0, n=32, tail=0, post=0), dict(pre=0, lead=3, n=32, tail=0, post=0)]
+    if tier != "quick":
+        lays += [dict(pre=2, lead=1, n=33, tail=3, post=2), dict(pre=0, lead=0, n=40, tail=0, post=0)]
+    ils = (2, 3, 8) if tier == "quick" else (2, 3, 4, 5, 6, 7, 8)
+    jobs = []
+    for li, lay in enumerate(lays):
+        for il in ils:
+            for kind in ("HP", "BHP"):
+                jobs.append(J("run%s-il%d-lay%d" % (kind, il, li), "zzH_run" + kind, params=dict(lay, inputLen=il, hashBits=1), uf_mul=True))
+            for hb, bsz in ((1, 2), (2, 2), (1, 3)):
+                jobs.append(J("runBUP-il%d-hb%d-bs%d-lay%d" % (il, hb, bsz, li), "zzH_runBUP", params=dict(lay, inputLen=il, hashBits=hb, bucketSize=bsz), uf_mul=True))
+        for il, il2 in ((2, 3), (3, 8), (4, 6)) if tier == "quick" else ((2, 3), (2, 8), (3, 4), (3, 8), (4, 6), (5, 8), (7, 8)):
+            for kind in ("DHP", "BDHP"):
+                jobs.append(J("run%s-il%d-%d-lay%d" % (kind, il, il2, li), "zzH_run" + kind, params=dict(lay, inputLen=il, inputLen2=il2, hashBits=1), uf_mul=True))
+        for mm in (2, 3, 8):
+            jobs.append(J("runGSAP-mm%d-lay%d" % (mm, li), "zzH_runGSAP", params=dict(lay, B=64, S=8, Wn=2 if mm == 2 else 48, bs=lay["n"], mm=mm), stubs=SAP_STUBS))
+            jobs.append(J("runOSAP-mm%d-lay%d" % (mm, li), "zzH_runOSAP", params=dict(lay, B=64, S=8, Wn=1 if mm == 2 else 48, bs=lay["n"], mm=mm, MM=273 if mm != 3 else 8), stubs=SAP_STUBS))
+    return jobs, {"run clause": "layouts (arbitrary bytes before / run bytes before the block / block / run bytes behind / arbitrary bytes behind) %s; the run byte c is arbitrary (0x00 included); "
+                                "hash parsers: arbitrary tables (BUP: tables produced by a real history on the same bytes, with 3 arbitrary bytes in front), InputLen %s, WindowSize symbolic from 1, flags 0; GSAP: MinMatchLen 2/3/8, WindowSize 2 and 48; OSAP: WindowSize 1 and 48" % (lays, list(ils))}
+
+
+def spec_C19(tier):
+    s = parse_spec(tier, "maximality: every emitted match ends at the block end or the next byte differs from the byte Offset back; BHP/BDHP: a literal directly in front "
+                   "of a match never equals the byte Offset before it while that byte is buffered; run clause: a block of >= 32 bytes inside a run of one byte carries at most one "
+                   "literal (hash parsers) / MinMatchLen literals (GSAP, OSAP); kernels lcp/lcs/getLE64 (8-byte loops, 4-byte step, every tail) against references")
+    j, b = run_jobs(tier)
+    s["jobs"] += j
+    s["bounds"].update(b)
+    j, b = kernel_jobs(tier, ["lcp", "lcs", "getLE64"])
+    s["jobs"] += j
+    s["bounds"].update(b)
+    s["reach"].update({"zzH_run" + k: ["end", "match"] for k in ("HP", "BHP", "DHP", "BDHP", "BUP", "GSAP", "OSAP")})
+    return s
